@@ -87,6 +87,7 @@ Clauses ==
    C06_ProRata |-> C06_ProRata(st, gh),
    C06_Flows |-> C06_Flows(pre, ev, st),
    C06_Rate |-> C06_Rate(pre, ev, st),
+   C06_TouchAccrues |-> C06_TouchAccrues(pre, ev, st),
    C06_RefundOnce |-> C06_RefundOnce(pre, ev, st, gh),
    C13_QueueSound |-> C13_QueueSound(st),
    C13_QueueComplete |-> C13_QueueComplete(st, gh),
